@@ -7,7 +7,8 @@ from props.replays import generic_replay
 LEVEL = "proof"
 M = "pyrtcm.rtcmmessage.RTCMMessage"
 TRUSTED = []
-ASSUMPTIONS = ["object.__setattr__ (reached through super()) is a plain store", "bytes objects are immutable (payload getter returns the stored object)"]
+ASSUMPTIONS = ["object.__setattr__ (reached through super()) is a plain store", "bytes objects are immutable (payload getter returns the stored object); the payload is a bytes object when the caller's stream / buffer "
+               "yields bytes (stream contract) - SocketWrapper.read, _read_bytes, _parse_rtcm3 and parse are proved to pass on bytes, not a bytearray"]
 ARGUED = ["after construction every attempted assignment raises and writes nothing (__setattr__.exc.* with _immutable = True, "
           "established by __init__.post.immutable_flag_set on every normal path incl. unknown types); identity/str/serialize are "
           "functions of the unchanged state (frame obligations)"]
@@ -45,6 +46,12 @@ def units(tier):
     for q in ("__setattr__", "__init__", "payload", "serialize", "__repr__", "identity"):
         us += func_units(f"{M}.{q}", tier)
     us += func_units(f"{M}._do_attributes", tier, only=lambda inst: inst["identity"].startswith("unknown"))
+    # the payload object itself cannot be changed in place: the reading layer hands the constructor a bytes object, never the
+    # socket wrapper's bytearray buffer or a slice of it
+    Rq = "pyrtcm.rtcmreader.RTCMReader"
+    for q in ("_read_bytes", "_parse_rtcm3", "parse"):
+        us += func_units(f"{Rq}.{q}", tier)
+    us += func_units("pyrtcm.socketwrapper.SocketWrapper.read", tier)
     us.append(ground_unit("C14.frame_scan", frame_scan))
     from pyvc import clientrun
     us.append(clientrun.unit("assignments_leave_message_unchanged", clientrun.lemma_assignments))
